@@ -28,3 +28,48 @@ def gen_http_responses():
                         "fields": {"status": {"int": 200}, "headers": {"py": "{}"}, "reason": _b(b"OK"),
                                    "body": _b(body), "request": req}})
     return out
+
+
+def _rec(cls, **fields):
+    return {"record": cls, "module": "dissect.cobaltstrike.c2", "fields": fields}
+
+
+def _optb(x):
+    return {"none": True} if x is None else _b(x)
+
+
+def gen_enc_packets():
+    out = []
+    for ct in (b"", b"\x01" * 16, bytes(range(32)), b"\x07" * 5):
+        for sig in (b"", b"\x02" * 16, b"\x03" * 4):
+            out.append(_rec("EncryptedPacket", ciphertext=_b(ct), signature=_b(sig)))
+    return out
+
+
+def gen_signed_packets():
+    """packets with a correct, a wrong and a truncated signature for key K"""
+    import hmac
+    out = []
+    for key in (b"k" * 16, b"z" * 16):
+        for ct in (b"\x01" * 16, bytes(range(32)), b""):
+            good = hmac.new(key, ct, "sha256").digest()[:16]
+            for sig in (good, good[:-1] + bytes([good[-1] ^ 1]), good[:8], b""):
+                out.append(_rec("EncryptedPacket", ciphertext=_b(ct), signature=_b(sig)))
+    return out
+
+
+def gen_server_c2data():
+    return [_rec("ServerC2Data", output=_optb(o), metadata=_optb(None), id=_optb(None))
+            for o in (None, b"", b"\x01" * 16, b"\x01" * 15, bytes(range(48)), b"abc")]
+
+
+def gen_client_cases():
+    """joint cases for ClientC2Data.iter_encrypted_packets: ghost list pkts and the stream built from it"""
+    out = []
+    lists = [[], [(b"", b"s" * 16)], [(b"\x01" * 16, b"s" * 16), (b"\x02" * 32, b"t" * 16)],
+             [(b"\x05" * 16, b"u" * 16)] * 3, [(b"\x00\x00\x00\x14" + b"x" * 12, b"v" * 16), (b"", b"w" * 16)]]
+    for pk in lists:
+        stream = b"".join((len(c) + len(s)).to_bytes(4, "big") + c + s for c, s in pk)
+        out.append({"self": _rec("ClientC2Data", output=_optb(stream), metadata=_optb(None), id=_optb(None)),
+                    "pkts": {"list": [{"tuple": [_b(c), _b(s)]} for c, s in pk]}})
+    return out
